@@ -3,6 +3,8 @@
 
 #include "runner.hpp"
 #include "lib.hpp"
+#include <tbb/global_control.h>
+#include <memory>
 
 using namespace vf;
 
@@ -15,9 +17,13 @@ struct RunOut {
     double returned = 0;
 };
 
+static int g_workers = 0;   // >0: limit TBB parallelism for the call (case field "workers")
+
 template <class W>
 static RunOut run_entry_t(const std::string &entry, const GraphSpec &s) {
     RunOut r;
+    std::unique_ptr<tbb::global_control> gc;
+    if (g_workers > 0) gc.reset(new tbb::global_control(tbb::global_control::max_allowed_parallelism, (std::size_t) g_workers));
     BG<W> bg(s);
     typedef typename BG<W>::Edge Edge;
     std::list<std::list<Edge>> cycles;
@@ -44,7 +50,8 @@ static RunOut run_entry_t(const std::string &entry, const GraphSpec &s) {
     if (!bg.to_indices(cycles, s, r.cycles, r.foreign_why)) r.foreign = true;
     return r;
 }
-static RunOut run_entry(const std::string &entry, const std::string &wtype, const GraphSpec &s) {
+static RunOut run_entry(const std::string &entry, const std::string &wtype, const GraphSpec &s, int workers = 0) {
+    g_workers = workers;
     if (wtype == "int") return run_entry_t<int>(entry, s);
     return run_entry_t<double>(entry, s);
 }
@@ -129,10 +136,283 @@ static Verdict check_c02(const Case &c) {
     return Verdict::pass();
 }
 
+
+// ------------------------------------------------------------------ C07E: all six entry points, worker counts, validity only
+static Case gen_c07e() {
+    Case c;
+    c.entry = ALL6[pick(0, 5)];
+    c.wtype = coin(35) ? "int" : "double";
+    GenOpts o;
+    o.maxN = g_maxN;
+    c.g = gen_graph_raw(o, c.wtype == "int" ? WDom::ExactInt : WDom::Exact);
+    static const int ws[] = {1, 2, 8};
+    c.workers = ws[pick(0, 2)];
+    return c;
+}
+static Verdict check_c07e(const Case &c) {
+    Stats &S = stats();
+    int dim = cycle_dim(c.g);
+    bool special = c.g.n <= 1 || dim == 0 || num_components(c.g) > 1;
+    S.note_case(c, special);
+    S.cls(c.entry);
+    S.cls("workers-" + std::to_string(c.workers));
+    if (c.g.n == 0) S.cls("empty-graph");
+    if (c.g.n == 1) S.cls("single-vertex");
+    if (dim == 0) S.cls("forest");
+    if (num_components(c.g) > 1) S.cls("disconnected");
+    RunOut r = run_entry(c.entry, c.wtype, c.g, c.workers);
+    return check_valid_basis("C07", c, r, "exact-" + c.wtype);
+}
+
+// ------------------------------------------------------------------ C08: metamorphic relations
+struct Lcg {
+    uint64_t s;
+    explicit Lcg(uint64_t seed) : s(seed * 6364136223846793005ULL + 1442695040888963407ULL) {}
+    uint32_t next() { s = s * 6364136223846793005ULL + 1442695040888963407ULL; return (uint32_t) (s >> 33); }
+    int below(int n) { return n <= 0 ? 0 : (int) (next() % (uint32_t) n); }
+};
+
+// transform recipe: "<kind> <a> <b>"; pure function of (graph, recipe). returns relation: value(T) == value(G)*2^scale + add
+struct Relation { int scale = 0; bool add_h = false; };
+
+static GraphSpec apply_transform(const GraphSpec &g, const std::string &kind, long a, long b, const GraphSpec &h, bool is_int, Relation &rel) {
+    GraphSpec t = g;
+    Lcg R((uint64_t) a * 1000003ULL + (uint64_t) b);
+    if (kind == "perm") {
+        std::vector<int> vp(g.n);
+        for (int i = 0; i < g.n; i++) vp[i] = i;
+        for (int i = g.n - 1; i > 0; i--) std::swap(vp[i], vp[R.below(i + 1)]);
+        std::vector<int> ep(g.m());
+        for (int i = 0; i < g.m(); i++) ep[i] = i;
+        for (int i = g.m() - 1; i > 0; i--) std::swap(ep[i], ep[R.below(i + 1)]);
+        t.edges.clear();
+        t.w.clear();
+        for (int i = 0; i < g.m(); i++) {
+            auto e = g.edges[ep[i]];
+            int x = vp[e[0]], y = vp[e[1]];
+            if (R.below(2)) std::swap(x, y);
+            t.edges.push_back({x, y});
+            t.w.push_back(g.w[ep[i]]);
+        }
+    } else if (kind == "isolated") {
+        t.n += 1 + (int) (a % 5);
+    } else if (kind == "pendant") {
+        int cnt = 1 + (int) (a % 6);
+        for (int i = 0; i < cnt; i++) {
+            int v = t.n++;
+            if (v == 0) continue;
+            t.edges.push_back({v, R.below(v)});
+            t.w.push_back(is_int ? 1 + R.below(3) : (double) (1 + R.below(8)));
+        }
+    } else if (kind == "bridge") {
+        // join two different components by one new edge (a bridge), if there are two
+        UnionFind uf(g.n);
+        for (auto &e : g.edges) uf.unite(e[0], e[1]);
+        if (g.n >= 2) {
+            int u = R.below(g.n);
+            for (int k = 0; k < g.n; k++) {
+                int v = (u + 1 + k) % g.n;
+                if (uf.find(u) != uf.find(v)) { t.edges.push_back({u, v}); t.w.push_back(is_int ? 2 : 4.0); break; }
+            }
+        }
+    } else if (kind == "union") {
+        rel.add_h = true;
+        for (int i = 0; i < h.m(); i++) { t.edges.push_back({h.edges[i][0] + g.n, h.edges[i][1] + g.n}); t.w.push_back(h.w[i]); }
+        t.n += h.n;
+    } else if (kind == "subdivide") {
+        int cnt = 1 + (int) (a % 4);
+        for (int k = 0; k < cnt && t.m() > 0; k++) {
+            int i = R.below(t.m());
+            double w = t.w[i], w1, w2;
+            if (is_int) { if (w < 2) continue; w1 = 1 + R.below((int) w - 1); w2 = w - w1; }
+            else { static const double fr[] = {0.5, 0.25, 0.75}; w1 = w * fr[R.below(3)]; w2 = w - w1; }
+            if (!(w1 > 0) || !(w2 > 0) || w1 + w2 != w) continue;
+            int u = t.edges[i][0], v = t.edges[i][1], x = t.n++;
+            t.edges[i] = {u, x};
+            t.w[i] = w1;
+            t.edges.push_back({x, v});
+            t.w.push_back(w2);
+        }
+    } else if (kind == "scale") {
+        int j = (int) (a % 17) - 8;
+        if (is_int) j = (int) (a % 5);
+        rel.scale = j;
+        for (auto &w : t.w) w = std::ldexp(w, j);
+    }
+    return t;
+}
+
+static const char *XF[] = {"perm", "perm", "perm", "isolated", "pendant", "bridge", "union", "subdivide", "subdivide", "scale"};
+static int g_maxM = 1000000;
+
+static Case gen_c08() {
+    Case c;
+    c.entry = ALL6[pick(0, 5)];   // variant used on the transformed graph
+    c.wtype = coin(30) ? "int" : "double";
+    GenOpts o;
+    o.maxN = g_maxN;
+    o.maxM = g_maxM;
+    o.allow_trivial = false;
+    WDom dom = c.wtype == "int" ? WDom::ExactInt : WDom::Exact;
+    if (g_maxN > 60) {
+        // large class: size drawn near the top, density bounded by maxM
+        o.maxN = g_maxN;
+        c.g = gen_graph_raw(o, dom);
+        for (int tries = 0; tries < 3 && c.g.n < g_maxN / 3; tries++) c.g = gen_graph_raw(o, dom);
+    } else c.g = gen_graph_raw(o, dom);
+    std::string kind = XF[pick(0, 9)];
+    c.extra.push_back("transform " + kind + " " + std::to_string(pick(0, 1 << 20)) + " " + std::to_string(pick(0, 1 << 20)));
+    if (kind == "union") {
+        GenOpts oh;
+        oh.maxN = std::min(g_maxN, 14);
+        GraphSpec h = gen_graph_raw(oh, dom);
+        c.extra.push_back("h_n " + std::to_string(h.n));
+        for (int i = 0; i < h.m(); i++) {
+            char b[96];
+            snprintf(b, sizeof b, "h_e %d %d %a", h.edges[i][0], h.edges[i][1], h.w[i]);
+            c.extra.push_back(b);
+        }
+    }
+    c.workers = coin(50) ? 0 : pick(1, 4);
+    return c;
+}
+
+static Verdict check_c08(const Case &c) {
+    Stats &S = stats();
+    std::string icls = "exact-" + c.wtype;
+    bool is_int = c.wtype == "int";
+    // int domain: keep everything comfortably below 2^30
+    if (is_int) { double tot = 0; for (double w : c.g.w) tot += w; if (tot * 16 * 2 >= (double) (1 << 30)) { S.note_case(c, false); S.cls("skipped-int-range"); return Verdict::pass(); } }
+    std::istringstream ts(c.xval("transform"));
+    std::string kind;
+    long a = 0, b = 0;
+    ts >> kind >> a >> b;
+    GraphSpec h;
+    h.n = atoi(c.xval("h_n").c_str());
+    for (auto &x : c.extra) if (x.compare(0, 4, "h_e ") == 0) {
+        std::istringstream is(x.substr(4));
+        int u, v; std::string ws;
+        is >> u >> v >> ws;
+        if (u < h.n && v < h.n) { h.edges.push_back({u, v}); h.w.push_back(strtod(ws.c_str(), nullptr)); }
+    }
+    Relation rel;
+    GraphSpec t = apply_transform(c.g, kind, a, b, h, is_int, rel);
+    if (!spec_is_simple(t) || !spec_is_simple(c.g)) { S.note_case(c, false); S.cls("skipped-not-simple"); return Verdict::pass(); }
+    int dim = cycle_dim(c.g);
+    S.note_case(c, dim >= 3 && kind != "isolated");
+    S.cls("transform-" + kind);
+    S.cls(std::string("wtype-") + c.wtype);
+    if (c.g.n > 60) S.cls("large(n>60)");
+    if (dim >= 100) S.cls("dimension>=100");
+    auto wG = exact_weights(c.g);
+    // 1. every variant/backend on G: valid basis, returned == sum, all equal
+    bool have = false;
+    i128 valG = 0;
+    for (const char *e : ALL6) {
+        RunOut r = run_entry(e, c.wtype, c.g, c.workers);
+        Case cc = c;
+        cc.entry = e;
+        Verdict v = check_valid_basis("C08", cc, r, icls);
+        if (!v.ok) return v;
+        i128 sum = cycles_weight(r.cycles, wG), ret;
+        std::string base = std::string("C08/") + e + "/" + icls + "/";
+        if (!to_exact(r.returned, ret) || ret != sum) return Verdict::fail(base + "returned-not-sum", "returned " + std::to_string(r.returned) + " emitted " + i128_str(sum));
+        if (have && sum != valG) return Verdict::fail(base + "variants-disagree", std::string(e) + " reports " + i128_str(sum) + " but " + ALL6[0] + " reports " + i128_str(valG));
+        if (!have) { valG = sum; have = true; }
+    }
+    if (c.g.n <= 24) {
+        RefMCB ref = ref_mcb(c.g);
+        S.cls("with-reference-optimum");
+        if (ref.total != valG) return Verdict::fail("C08/" + std::string(ALL6[0]) + "/" + icls + "/not-minimum", "all variants report " + i128_str(valG) + " optimum " + i128_str(ref.total));
+    }
+    // 2. the relation
+    std::string base = "C08/" + c.entry + "/" + icls + "/";
+    i128 valH = 0;
+    if (rel.add_h && cycle_dim(h) > 0) {
+        RunOut rh = run_entry(c.entry, c.wtype, h, c.workers);
+        Case ch = c;
+        ch.g = h;
+        Verdict v = check_valid_basis("C08", ch, rh, icls);
+        if (!v.ok) return v;
+        valH = cycles_weight(rh.cycles, exact_weights(h));
+    }
+    RunOut rt = run_entry(c.entry, c.wtype, t, c.workers);
+    Case ct = c;
+    ct.g = t;
+    Verdict v = check_valid_basis("C08", ct, rt, icls);
+    if (!v.ok) { v.key = base + "transformed-" + v.key.substr(v.key.rfind('/') + 1); return v; }
+    i128 valT = cycles_weight(rt.cycles, exact_weights(t)), retT;
+    if (!to_exact(rt.returned, retT) || retT != valT) return Verdict::fail(base + "returned-not-sum", "on transformed graph");
+    i128 expect = valG;
+    if (rel.scale > 0) expect = valG << rel.scale;
+    else if (rel.scale < 0) { expect = valG >> (-rel.scale); if ((expect << (-rel.scale)) != valG) { return Verdict::pass(); } }
+    expect += valH;
+    if (valT != expect)
+        return Verdict::fail(base + "relation-" + kind, "value(G)=" + i128_str(valG) + (rel.add_h ? " value(H)=" + i128_str(valH) : "") + " expected value(T)=" + i128_str(expect) + " got " + i128_str(valT));
+    return Verdict::pass();
+}
+
+// ------------------------------------------------------------------ C09: inexact floating point weights
+static Case gen_c09() {
+    Case c;
+    c.entry = ALL6[pick(0, 5)];
+    c.wtype = "double";
+    GenOpts o;
+    o.maxN = g_maxN;
+    c.g = gen_graph_raw(o, WDom::Inexact);
+    return c;
+}
+static Verdict check_c09(const Case &c) {
+    Stats &S = stats();
+    int dim = cycle_dim(c.g);
+    APSP ap = apsp(c.g);
+    // near-tie: for some ordered pair (u,v) at least two different last edges (x,v) give a u-v walk whose exact length is within
+    // a relative 1e-12 of the shortest distance (exact ties included): rounding of the double sums can then break the tie either way.
+    bool real_tie = false;
+    {
+        auto wx = exact_weights(c.g);
+        for (int u = 0; u < c.g.n && !real_tie; u++) for (int v = 0; v < c.g.n && !real_tie; v++) {
+            if (u == v || !(ap.d[u][v] < APSP::inf())) continue;
+            int tight = 0;
+            for (int e = 0; e < c.g.m(); e++) {
+                int x;
+                if (c.g.edges[e][0] == v) x = c.g.edges[e][1]; else if (c.g.edges[e][1] == v) x = c.g.edges[e][0]; else continue;
+                if (!(ap.d[u][x] < APSP::inf())) continue;
+                i128 diff = ap.d[u][x] + wx[e] - ap.d[u][v];
+                if (diff <= ap.d[u][v] / 1000000000000LL) tight++;
+            }
+            if (tight >= 2) real_tie = true;
+        }
+    }
+    std::string icls = real_tie ? "near-tie" : "tie-free";
+    S.note_case(c, dim >= 1 && real_tie);
+    S.cls(c.entry);
+    S.cls(icls);
+    std::string base = "C09/" + c.entry + "/" + icls + "/";
+    RunOut r = run_entry(c.entry, "double", c.g, 0);
+    Verdict v = check_valid_basis("C09", c, r, icls);
+    if (!v.ok) return v;
+    auto w = exact_weights(c.g);
+    i128 sum = cycles_weight(r.cycles, w);
+    RefMCB ref = ref_mcb(c.g);
+    double sumd = (double) sum / std::ldexp(1.0, 62), optd = (double) ref.total / std::ldexp(1.0, 62);
+    if (std::fabs(r.returned - sumd) > 1e-9 * sumd + 1e-300)
+        return Verdict::fail(base + "returned-not-sum", "returned " + std::to_string(r.returned) + " emitted cycles weigh " + std::to_string(sumd));
+    if (sum < ref.total) return Verdict::fail(base + "below-optimum", "impossible: valid basis lighter than optimum (oracle error?)");
+    // sum <= (1+1e-9) * opt  evaluated exactly:  (sum - opt) * 1e9 <= opt
+    if ((sum - ref.total) > ref.total / 1000000000)
+        return Verdict::fail(base + "not-minimum", "emitted weight " + std::to_string(sumd) + " optimum " + std::to_string(optd));
+    return Verdict::pass();
+}
+
 int main(int argc, char **argv) {
     if (getenv("VERIF_MAXN")) g_maxN = atoi(getenv("VERIF_MAXN"));
     std::map<std::string, Prop> props;
     props["C01"] = Prop{gen_c0102, check_c01};
     props["C02"] = Prop{gen_c0102, check_c02};
+    if (getenv("VERIF_MAXM")) g_maxM = atoi(getenv("VERIF_MAXM"));
+    props["C07E"] = Prop{gen_c07e, check_c07e};
+    props["C08"] = Prop{gen_c08, check_c08};
+    props["C09"] = Prop{gen_c09, check_c09};
     return run_main(argc, argv, props);
 }
